@@ -4,13 +4,15 @@ import OsuModel.WindEstimate
 import Mathlib.Tactic.Ring
 import Mathlib.Tactic.NormNum
 /-!
-# C12, second tie: the closed form of the friction velocity, machine-translated
+# C12, second tie: the closed forms of the wind estimate, machine-translated
 
-`tools/py2lean_arith.py` re-translates the two assignments of `windestimate.py: friction_velocity`
-that turn the equilibrium level into the friction velocity from /repo's current source on every run.
+`tools/py2lean_arith.py` re-translates, from /repo's current source on every run, the assignments of
+`windestimate.py` that turn the equilibrium level into the friction velocity, the tail moments into a
+direction in [0, 360), the going-to direction into the meteorological convention, and the friction
+velocity and roughness into U10 (statement slices of `friction_velocity` and `estimate_u10_from_spectrum`).
 -/
 namespace Osu.Props.C12Gen
-open Osu.Wind
+open Osu.Wind Osu.Spec
 
 /-- the code's `8.0 * np.pi**3 * e / grav / I / beta / 4` is the model's `ustar` -/
 theorem gen_friction_velocity_eq (e g I beta : ℝ) :
@@ -18,5 +20,22 @@ theorem gen_friction_velocity_eq (e g I beta : ℝ) :
   simp only [Osu.GenArith.friction_velocity_estimate, ustar, Transc.pi]
   norm_num
   ring
+
+/-- `(180.0 / np.pi * np.arctan2(b1, a1)) % 360` is the model's tail direction -/
+theorem gen_tail_direction_eq (a1 b1 : ℝ) :
+    Osu.GenArith.tail_direction a1 b1 = tailDirection (fun x : ℝ => ⌊x⌋) a1 b1 := by
+  simp only [Osu.GenArith.tail_direction, tailDirection, pmod, Transc.pi, Transc.atan2]
+  norm_num
+
+/-- `(270.0 - direction) % 360` is the model's conversion to the meteorological convention -/
+theorem gen_meteorological_eq (d : ℝ) :
+    Osu.GenArith.meteorological_direction d = toMeteorological (fun x : ℝ => ⌊x⌋) d := by
+  simp only [Osu.GenArith.meteorological_direction, toMeteorological, pmod]
+  norm_num
+
+/-- `u* / kappa * log(10 / z0)` is the model's logarithmic profile -/
+theorem gen_u10_eq (us kappa z0 : ℝ) : Osu.GenArith.u10_loglaw us kappa z0 = u10Of kappa us z0 := by
+  simp only [Osu.GenArith.u10_loglaw, u10Of, Transc.log]
+  norm_num
 
 end Osu.Props.C12Gen
